@@ -158,6 +158,34 @@ def one(ctx, cname, label, route, pre):
             bad("shadow", "shadow value %r != mapping of %r" % (sh, stored))
     if obj.other != 7:
         bad("other-attribute", "another attribute changed")
+    if c.kind == "Range-dynamic" and isinstance(stored, (int, float)) and \
+            stored == stored and abs(stored) < 1e6:
+        # "no value outside the declared domain is ever readable": when a
+        # bound moves past the stored value, reads stay inside the bounds
+        ctx.tr()
+        try:
+            if "hi_" in c.owner_attrs:
+                lo_now = getattr(obj, "lo_", None)
+                new_hi = stored - 1 if lo_now is None else \
+                    max(lo_now, stored - 1)
+                obj.hi_ = type(c.owner_attrs["hi_"][1])(new_hi)
+                r = obj.x
+                if r > obj.hi_:
+                    bad("moved-bound", "upper bound lowered to %r, the "
+                        "attribute still reads %r" % (obj.hi_, r))
+                obj.hi_ = c.owner_attrs["hi_"][1]
+            if "lo_" in c.owner_attrs:
+                hi_now = getattr(obj, "hi_", None)
+                new_lo = stored + 1 if hi_now is None else \
+                    min(hi_now, stored + 1)
+                obj.lo_ = type(c.owner_attrs["lo_"][1])(new_lo)
+                r = obj.x
+                if r < obj.lo_:
+                    bad("moved-bound", "lower bound raised to %r, the "
+                        "attribute still reads %r" % (obj.lo_, r))
+            ctx.outcome("moved-bound-checked")
+        except Exception as e:
+            bad("moved-bound-raises", "moving a bound raised %r" % (e,))
     same = stored is v
     ctx.outcome("accepted-same" if same else "accepted-converted")
     if not same:
